@@ -123,8 +123,8 @@ def check(ctx: Ctx, rep: Report):
     def _is(n, chain_, args):
         """call with the given (alias-canonical) access chain whose arguments satisfy the given predicates"""
         return isinstance(n, ast.Call) and call_chain(n) == chain_ and len(n.args) == len(args) and all(f(a) for f, a in zip(args, n.args))
-    ok = sk is not None and any(_is(n, ("self", "_bytes", "seek"), [lambda a: _is(a, ("self", "command", "get_offset"), [lambda b: norm(b) == sk.params[1]])])
-                                for n in ast.walk(sk.node))
+    from ..astutil import seeks_through_get_offset
+    ok = sk is not None and seeks_through_get_offset(sk)
     rep.check(ok, "C12.R3", "response-seek", sk.loc() if sk else pr.module.relpath, "ProtocolResponse.seek positions at command.get_offset(address)",
               bad="ProtocolResponse.seek no longer positions the buffer at command.get_offset(address)")
     from ..astutil import returned_values
